@@ -56,6 +56,21 @@ def expr(e, locs):
         return "(PAnd %s %s)" % (expr(e.values[0], locs), expr(e.values[1], locs))
     if isinstance(e, ast.UnaryOp) and isinstance(e.op, ast.Not):
         return "(PNot %s)" % expr(e.operand, locs)
+    if isinstance(e, ast.UnaryOp) and isinstance(e.op, ast.USub):
+        return "(PNeg %s)" % expr(e.operand, locs)
+    if isinstance(e, ast.BinOp) and isinstance(e.op, ast.Sub):
+        return "(PSub %s %s)" % (expr(e.left, locs), expr(e.right, locs))
+    if isinstance(e, ast.Tuple) and len(e.elts) == 2 and isinstance(e.ctx, ast.Load):
+        return "(PTuple2 %s %s)" % (expr(e.elts[0], locs), expr(e.elts[1], locs))
+    if isinstance(e, ast.Subscript) and isinstance(e.ctx, ast.Load):
+        sl = e.slice
+        if isinstance(sl, ast.Slice):
+            if sl.step is not None:
+                raise Bad("slice with a step (line %d)" % e.lineno)
+            lo = "None" if sl.lower is None else "(Some %s)" % expr(sl.lower, locs)
+            hi = "None" if sl.upper is None else "(Some %s)" % expr(sl.upper, locs)
+            return "(PSlice %s %s %s)" % (expr(e.value, locs), lo, hi)
+        return "(PIndex %s %s)" % (expr(e.value, locs), expr(sl, locs))
     if isinstance(e, ast.BinOp) and isinstance(e.op, ast.Add):
         return "(PAdd %s %s)" % (expr(e.left, locs), expr(e.right, locs))
     if isinstance(e, ast.Compare) and len(e.ops) == 1:
@@ -64,6 +79,10 @@ def expr(e, locs):
             if isinstance(l, ast.Call) and isinstance(l.func, ast.Name) and l.func.id == "type" and len(l.args) == 1 and isinstance(r, ast.Name) and r.id in CLASSES:
                 return "(PTypeIs %s %s)" % (expr(l.args[0], locs), q(r.id))
             return "(PIs %s %s)" % (expr(l, locs), expr(r, locs))
+        if isinstance(op, ast.IsNot):
+            return "(PNot (PIs %s %s))" % (expr(l, locs), expr(r, locs))
+        if isinstance(op, ast.Lt):
+            return "(PLt %s %s)" % (expr(l, locs), expr(r, locs))
         if isinstance(op, ast.Eq):
             return "(PEq %s %s)" % (expr(l, locs), expr(r, locs))
         if isinstance(op, ast.NotEq):
@@ -113,11 +132,31 @@ def stmts(body, locs):
     return "[" + "; ".join(stmt(s, locs) for s in body) + "]"
 
 
+FUNCS = {"_check_dims"}      # other translated functions that may be called
+
+
+def call_of(e, locs):
+    if isinstance(e, ast.Call) and isinstance(e.func, ast.Name) and e.func.id in FUNCS and not e.keywords:
+        return e.func.id, "[" + "; ".join(expr(a, locs) for a in e.args) + "]"
+    return None
+
+
 def stmt(s, locs):
     if isinstance(s, ast.Pass):
         return "SPass"
+    if isinstance(s, ast.Return) and s.value is not None and call_of(s.value, locs):
+        f, args = call_of(s.value, locs)
+        locs.add("_ret")
+        return '(SCallAssign "_ret" %s %s); (SReturn (PVar "_ret"))' % (q(f), args)
+    if isinstance(s, ast.Assign) and len(s.targets) == 1 and isinstance(s.targets[0], ast.Name) and call_of(s.value, locs):
+        f, args = call_of(s.value, locs)
+        locs.add(s.targets[0].id)
+        return "(SCallAssign %s %s %s)" % (q(s.targets[0].id), q(f), args)
     if isinstance(s, ast.Assert) and s.msg is None:
         return "(SAssert %s)" % expr(s.test, locs)
+    if isinstance(s, ast.Assign) and len(s.targets) == 1 and isinstance(s.targets[0], ast.Name) and isinstance(s.value, ast.Constant) and s.value.value is None:
+        locs.add(s.targets[0].id)
+        return "(SAssign %s PNone)" % q(s.targets[0].id)
     if isinstance(s, ast.Return) and s.value is not None:
         return "(SReturn %s)" % expr(s.value, locs)
     if isinstance(s, ast.If):
@@ -128,7 +167,7 @@ def stmt(s, locs):
             v = expr(s.value, locs)
             locs.add(t.id)
             return "(SAssign %s %s)" % (q(t.id), v)
-        if isinstance(t, ast.Subscript) and isinstance(t.value, ast.Name) and t.value.id in locs:
+        if isinstance(t, ast.Subscript) and isinstance(t.value, ast.Name) and t.value.id in locs and not isinstance(t.slice, ast.Slice):
             return "(SSetItem %s %s %s)" % (q(t.value.id), expr(t.slice, locs), expr(s.value, locs))
     if isinstance(s, ast.For) and not s.orelse:
         it, tg = s.iter, s.target
@@ -141,6 +180,28 @@ def stmt(s, locs):
         ev = eval_idiom(s, locs)
         if ev is not None:
             return ev
+        # try: x = np.broadcast_shapes(a, b) / except ValueError: onfail
+        if (len(s.body) == 1 and isinstance(s.body[0], ast.Assign) and len(s.body[0].targets) == 1 and isinstance(s.body[0].targets[0], ast.Name)
+                and isinstance(s.body[0].value, ast.Call) and isinstance(s.body[0].value.func, ast.Attribute) and s.body[0].value.func.attr == "broadcast_shapes"
+                and isinstance(s.body[0].value.func.value, ast.Name) and s.body[0].value.func.value.id == "np" and len(s.body[0].value.args) == 2 and not s.body[0].value.keywords
+                and len(s.handlers) == 1 and isinstance(s.handlers[0].type, ast.Name) and s.handlers[0].type.id == "ValueError" and s.handlers[0].name is None
+                and not s.orelse and not s.finalbody):
+            a, b = expr(s.body[0].value.args[0], locs), expr(s.body[0].value.args[1], locs)
+            onfail = stmts(s.handlers[0].body, set(locs))
+            locs.add(s.body[0].targets[0].id)
+            return "(STryBroadcast %s %s %s %s)" % (q(s.body[0].targets[0].id), a, b, onfail)
+        # try: x1, x2 = d[k] / except KeyError: onmiss / else: orelse
+        if (len(s.body) == 1 and isinstance(s.body[0], ast.Assign) and len(s.body[0].targets) == 1 and isinstance(s.body[0].targets[0], ast.Tuple)
+                and len(s.body[0].targets[0].elts) == 2 and all(isinstance(x, ast.Name) for x in s.body[0].targets[0].elts)
+                and isinstance(s.body[0].value, ast.Subscript) and isinstance(s.body[0].value.value, ast.Name) and s.body[0].value.value.id in locs
+                and not isinstance(s.body[0].value.slice, ast.Slice)
+                and len(s.handlers) == 1 and isinstance(s.handlers[0].type, ast.Name) and s.handlers[0].type.id == "KeyError" and s.handlers[0].name is None
+                and not s.finalbody):
+            x1, x2 = (x.id for x in s.body[0].targets[0].elts)
+            k = expr(s.body[0].value.slice, locs)
+            onmiss = stmts(s.handlers[0].body, set(locs))
+            locs.add(x1); locs.add(x2)
+            return "(STryKey2 %s %s %s %s %s %s)" % (q(x1), q(x2), q(s.body[0].value.value.id), k, onmiss, stmts(s.orelse, locs))
         # try: x = d[k] / except KeyError: onmiss / else: orelse
         if (len(s.body) == 1 and isinstance(s.body[0], ast.Assign) and len(s.body[0].targets) == 1 and isinstance(s.body[0].targets[0], ast.Name)
                 and isinstance(s.body[0].value, ast.Subscript) and isinstance(s.body[0].value.value, ast.Name) and s.body[0].value.value.id in locs
@@ -165,8 +226,20 @@ def translate(repo):
     params = [a.arg for a in fn.args.args]
     body = [s for s in fn.body if not (isinstance(s, ast.Expr) and isinstance(s.value, ast.Constant) and isinstance(s.value.value, str))]
     src = stmts(body, set(params))
-    out = ["(* GENERATED by translator/tr_pyl.py from jaxtyping/_array_types.py:_check_dims -- do not edit *)",
+    # the method _MetaAbstractArray._check_shape
+    meths = [m for c in tree.body if isinstance(c, ast.ClassDef) and c.name == "_MetaAbstractArray" for m in c.body if isinstance(m, ast.FunctionDef) and m.name == "_check_shape"]
+    if len(meths) != 1:
+        raise Bad("_MetaAbstractArray._check_shape not found exactly once")
+    m = meths[0]
+    if m.decorator_list or m.args.vararg or m.args.kwarg or m.args.kwonlyargs or m.args.posonlyargs or m.args.defaults:
+        raise Bad("unexpected signature of _check_shape")
+    sparams = [a.arg for a in m.args.args]
+    sbody = [s for s in m.body if not (isinstance(s, ast.Expr) and isinstance(s.value, ast.Constant) and isinstance(s.value.value, str))]
+    ssrc = stmts(sbody, set(sparams))
+    out = ["(* GENERATED by translator/tr_pyl.py from jaxtyping/_array_types.py: _check_dims and _MetaAbstractArray._check_shape -- do not edit *)",
            "From JT Require Import model.PyL.", "Open Scope string_scope.",
            "Definition check_dims_params : list string := [%s]." % "; ".join(q(p) for p in params),
-           "Definition check_dims_src : list pstmt :=\n  %s." % src]
+           "Definition check_dims_src : list pstmt :=\n  %s." % src,
+           "Definition check_shape_params : list string := [%s]." % "; ".join(q(p) for p in sparams),
+           "Definition check_shape_src : list pstmt :=\n  %s." % ssrc]
     return {"CheckDimsSrc.v": "\n".join(out) + "\n"}
